@@ -23,6 +23,8 @@ struct ShNode<S> {
 pub struct ProblemInfo<S> {
     pub start: Option<S>,
     pub goal_sat: Box<dyn Fn(&S) -> bool>,
+    /// is the goal reachable from the start through valid states? 0 no, 1 yes, 2 unknown
+    pub feas: u8,
 }
 
 pub struct Annot<'a, S: Clone + Bits> {
@@ -250,7 +252,7 @@ impl<'a, S: Clone + Bits> Annot<'a, S> {
                     (0, 0, UNKNOWN, vec![], 0)
                 };
                 json!({"tr": tr + 1, "tgt": tgt_sid, "dr": dr, "far": far, "add": true, "near": near + 1,
-                       "new": new_sid, "isq": new.bits() == tgt.bits(), "step": step, "gd": gd,
+                       "new": new_sid, "nv": g.valid(&new), "isq": new.bits() == tgt.bits(), "step": step, "gd": gd,
                        "cov": cov, "len": len, "orc": orc, "n": n})
             }
             None => {
@@ -271,7 +273,7 @@ impl<'a, S: Clone + Bits> Annot<'a, S> {
                 let orc = if all_free && !zero { FREE } else if all_blocked { BLOCKED } else { UNKNOWN };
                 let far = argmin.first().map(|m| cmp_band(ds[*m], maxd)).unwrap_or(2);
                 json!({"tr": tr + 1, "tgt": tgt_sid, "dr": dr, "far": far, "add": false, "near": 0,
-                       "new": 0, "isq": false, "step": 0, "gd": 0, "cov": [], "len": 0, "orc": orc, "n": n})
+                       "new": 0, "nv": true, "isq": false, "step": 0, "gd": 0, "cov": [], "len": 0, "orc": orc, "n": n})
             }
         }
     }
@@ -577,7 +579,9 @@ impl<'a, S: Clone + Bits> Annot<'a, S> {
         let mut last_goal = false;
         let mut start_valid = true;
         let mut start_inb = true;
+        let mut feas = 2u8;
         if let Some(i) = self.pd {
+            feas = problems[i].feas;
             if let Some(st) = &problems[i].start {
                 start_valid = self.g.valid(st);
                 start_inb = self.g.in_bounds(st);
@@ -605,7 +609,7 @@ impl<'a, S: Clone + Bits> Annot<'a, S> {
         let elapsed = (rec.t_end - rec.t_begin) / TICK_NS;
         self.out.push(json!({"ev": "ret", "kind": k, "site": site, "msg": msg, "path": path, "pvalid": pvalid,
             "pinb": pinb, "plen": plen, "first_is_start": first_is_start, "last_goal": last_goal,
-            "start_valid": start_valid, "start_inb": start_inb, "t": elapsed, "T": t, "snap": snap}));
+            "start_valid": start_valid, "start_inb": start_inb, "t": elapsed, "T": t, "snap": snap, "feas": feas}));
     }
 
     // ------------------------------------------------------------------------------------- PRM
